@@ -57,7 +57,20 @@ func observe(blk *BlockRecord) blockObs {
 // replayReplica executes the recorded blocks of a on a fresh world; restartAt lists the
 // heights (block indexes) after which the app is rebuilt from its database.
 func replayReplica(a *History, restartAt map[int]bool, name string) *Violation {
-	w, err := BuildWorld(a.Trace.Spec)
+	return replayReplicaOn(a, restartAt, name, "")
+}
+
+// replayReplicaOn: diskDir != "" runs the replica on an on-disk goleveldb database that is closed and
+// re-opened at every restart point; the directory is removed afterwards.
+func replayReplicaOn(a *History, restartAt map[int]bool, name, diskDir string) *Violation {
+	if diskDir != "" {
+		_ = os.RemoveAll(diskDir)
+		defer os.RemoveAll(diskDir)
+	}
+	w, err := BuildWorldOn(a.Trace.Spec, diskDir)
+	if diskDir != "" && w != nil {
+		defer func() { _ = w.DB.Close() }()
+	}
 	if err != nil {
 		return &Violation{Sig: "C19/replica-setup", Detail: err.Error()}
 	}
@@ -107,6 +120,15 @@ func replayReplica(a *History, restartAt map[int]bool, name string) *Violation {
 	return nil
 }
 
+// onDisk: every history in the thorough tier, one in four in the quick tier, gets a third replica whose
+// application database lives in files (goleveldb) and is closed and re-opened at each restart point.
+func onDisk(rt *rapid.T) bool {
+	if os.Getenv("VERIF_TIER") == "thorough" {
+		return true
+	}
+	return UniformDraw(rt, "ondisk", 4) == 0
+}
+
 func TestC19(t *testing.T) {
 	p := ProfileC19
 	if path := os.Getenv("VERIF_REPLAY"); path != "" {
@@ -143,6 +165,12 @@ func TestC19(t *testing.T) {
 			viol = v
 		} else if v := replayReplica(h, restartAt, "C(restarted)"); v != nil {
 			viol = v
+		} else if onDisk(rt) {
+			dir := filepath.Join(workDir(), fmt.Sprintf("c19-disk-%d-%s", os.Getpid(), h.traceHash()))
+			h.Labels["on-disk-replicas"]++
+			if v := replayReplicaOn(h, restartAt, "D(on-disk, restarted)", dir); v != nil {
+				viol = v
+			}
 		}
 		h.emitStats(viol != nil)
 		if traceDir != "" && viol == nil {
